@@ -42,7 +42,7 @@ func runC09(c *fw.Ctx, idx int) fw.Result {
 	}
 	if idx%40 == 11 {
 		// genome-scale rows: SNP positions beyond 2^12, 10^4 and 2^14
-		prof.Width = [2]int{4200, 12000}
+		prof.Width = [2]int{9000, 14000}
 		if r.Chance(0.3) {
 			prof.Width = [2]int{16500, 31000}
 		}
@@ -50,6 +50,17 @@ func runC09(c *fw.Ctx, idx int) fw.Result {
 		res.Count("genome_scale_cases", 1)
 	}
 	in := gen.MakeUpdown(r, prof)
+	if prof.Width[1] > 0 && len(in.Targets) >= 2 && r.Chance(0.5) {
+		// a misaligned or unrelated target in the middle of the list: it differs from the reference
+		// in every column, so its CSV row runs to a hundred kilobytes or more
+		j := len(in.Targets) / 2
+		b := []byte(in.Ref)
+		for i := range b {
+			b[i] = gen.OtherBase(r, in.Ref[i])
+		}
+		in.Targets[j].Seq = string(b)
+		res.Count("cases_with_a_target_row_longer_than_64KiB", 1)
+	}
 	if r.Chance(0.2) {
 		// a reference with alignment gaps or ambiguity codes in a few columns (accepted with a
 		// warning): whatever such a column means, it must mean the same on the CSV and FASTA paths
